@@ -15,7 +15,7 @@ BUILDER_C02 = ["builder_doc", "builder_equiv_dict", "builder_run_callsOfDoc", "b
                "builder_infinity_string", "builder_values_verbatim", "builder_infinity_elsewhere_counterexample"]
 FILES = {
     "C01": ["C01", "C01Ops", ("Builder", BUILDER_C01)], "C02": ["C02", ("Builder", BUILDER_C02)], "C03": ["C03"], "C04": ["C04"], "C05": ["C05"], "C06": ["C06"],
-    "C07": ["C07"], "C08": ["C08"], "C09": ["C09"], "C10": ["C10"], "C11": ["C11"], "C12": ["C12"],
+    "C07": ["C07"], "C08": ["C08"], "C09": ["C09", "C09Real"], "C10": ["C10"], "C11": ["C11"], "C12": ["C12"],
     "C13": ["C13", "C13Real"], "C14": ["C14"], "C15": ["C15"], "C16": ["C16"], "C17": ["C17"], "C18": ["C18", ("Builder", BUILDER_C18)],
     "C19": ["C19"], "C20": ["C20"],
 }
